@@ -714,73 +714,108 @@ func ReceiverState(p *load.Prog, r *oblig.Report, rule, pkg, typeName string, fu
 		methods++
 		recv := f.Params[0]
 		derived := map[ssa.Value]bool{recv: true}
+		cells := map[ssa.Value]bool{} // local cells that hold the receiver (a parameter captured by a closure is spilled)
+		scope := []*ssa.Function{f}
+		var addAnon func(g *ssa.Function)
+		addAnon = func(g *ssa.Function) {
+			for _, an := range g.AnonFuncs {
+				scope = append(scope, an)
+				addAnon(an)
+			}
+		}
+		addAnon(f)
 		for changed := true; changed; {
 			changed = false
-			for _, b := range f.Blocks {
-				for _, in := range b.Instrs {
-					v, ok := in.(ssa.Value)
-					if !ok || derived[v] {
-						continue
-					}
-					switch x := v.(type) {
-					case *ssa.FieldAddr:
-						if derived[x.X] {
-							derived[v] = true
-							changed = true
+			for _, g := range scope {
+				for _, b := range g.Blocks {
+					for _, in := range b.Instrs {
+						if st, isSt := in.(*ssa.Store); isSt && derived[st.Val] && !cells[st.Addr] {
+							if _, isAlloc := st.Addr.(*ssa.Alloc); isAlloc {
+								cells[st.Addr] = true
+								changed = true
+							}
 						}
-					case *ssa.IndexAddr:
-						if derived[x.X] {
-							derived[v] = true
-							changed = true
+						if mc, isMC := in.(*ssa.MakeClosure); isMC {
+							if cf, isFn := mc.Fn.(*ssa.Function); isFn {
+								for i, bnd := range mc.Bindings {
+									if cells[bnd] && i < len(cf.FreeVars) && !cells[cf.FreeVars[i]] {
+										cells[cf.FreeVars[i]] = true
+										changed = true
+									}
+								}
+							}
 						}
-					case *ssa.UnOp:
-						if x.Op == token.MUL && derived[x.X] && pointerLike(x.Type()) {
-							derived[v] = true
-							changed = true
+						v, ok := in.(ssa.Value)
+						if !ok || derived[v] {
+							continue
 						}
-					case *ssa.Lookup:
-						if derived[x.X] && pointerLike(x.Type()) {
+						if ld, isLd := v.(*ssa.UnOp); isLd && ld.Op == token.MUL && cells[ld.X] {
 							derived[v] = true
 							changed = true
+							continue
+						}
+						switch x := v.(type) {
+						case *ssa.FieldAddr:
+							if derived[x.X] {
+								derived[v] = true
+								changed = true
+							}
+						case *ssa.IndexAddr:
+							if derived[x.X] {
+								derived[v] = true
+								changed = true
+							}
+						case *ssa.UnOp:
+							if x.Op == token.MUL && derived[x.X] && pointerLike(x.Type()) {
+								derived[v] = true
+								changed = true
+							}
+						case *ssa.Lookup:
+							if derived[x.X] && pointerLike(x.Type()) {
+								derived[v] = true
+								changed = true
+							}
 						}
 					}
 				}
 			}
 		}
-		for _, b := range f.Blocks {
-			for _, in := range b.Instrs {
-				switch v := in.(type) {
-				case *ssa.Store:
-					if derived[v.Addr] {
-						n++
-						r.Bad(rule, "receiver-state:"+load.FuncName(f), p.Pos(in.Pos()), "store into the "+typeName+" receiver: a later call on the same builder sees state left by this one")
-					}
-				case *ssa.MapUpdate:
-					if derived[v.Map] {
-						n++
-						r.Bad(rule, "receiver-state:"+load.FuncName(f), p.Pos(in.Pos()), "map update inside the "+typeName+" receiver: a later call on the same builder sees state left by this one")
-					}
-				case ssa.CallInstruction:
-					// a counter or a concurrent map kept in the receiver is state all the same, however atomically it is updated
-					cc := v.Common()
-					callee := cc.StaticCallee()
-					if callee == nil || callee.Pkg == nil || len(cc.Args) == 0 || !derived[cc.Args[0]] {
-						continue
-					}
-					pkgPath, name := callee.Pkg.Pkg.Path(), callee.Name()
-					writes := false
-					switch pkgPath {
-					case "sync/atomic":
-						writes = name != "Load" && !strings.HasPrefix(name, "Load")
-					case "sync":
-						switch name {
-						case "Store", "Delete", "LoadOrStore", "LoadAndDelete", "Swap", "CompareAndSwap", "CompareAndDelete", "Clear", "Do":
-							writes = true
+		for _, g := range scope {
+			for _, b := range g.Blocks {
+				for _, in := range b.Instrs {
+					switch v := in.(type) {
+					case *ssa.Store:
+						if derived[v.Addr] {
+							n++
+							r.Bad(rule, "receiver-state:"+load.FuncName(f), p.Pos(in.Pos()), "store into the "+typeName+" receiver: a later call on the same builder sees state left by this one")
 						}
-					}
-					if writes {
-						n++
-						r.Bad(rule, "receiver-state:"+load.FuncName(f), p.Pos(in.Pos()), "call of "+pkgPath+"."+name+" on a field of the "+typeName+" receiver: a later or concurrent call on the same builder sees state left by this one")
+					case *ssa.MapUpdate:
+						if derived[v.Map] {
+							n++
+							r.Bad(rule, "receiver-state:"+load.FuncName(f), p.Pos(in.Pos()), "map update inside the "+typeName+" receiver: a later call on the same builder sees state left by this one")
+						}
+					case ssa.CallInstruction:
+						// a counter or a concurrent map kept in the receiver is state all the same, however atomically it is updated
+						cc := v.Common()
+						callee := cc.StaticCallee()
+						if callee == nil || callee.Pkg == nil || len(cc.Args) == 0 || !derived[cc.Args[0]] {
+							continue
+						}
+						pkgPath, name := callee.Pkg.Pkg.Path(), callee.Name()
+						writes := false
+						switch pkgPath {
+						case "sync/atomic":
+							writes = name != "Load" && !strings.HasPrefix(name, "Load")
+						case "sync":
+							switch name {
+							case "Store", "Delete", "LoadOrStore", "LoadAndDelete", "Swap", "CompareAndSwap", "CompareAndDelete", "Clear", "Do":
+								writes = true
+							}
+						}
+						if writes {
+							n++
+							r.Bad(rule, "receiver-state:"+load.FuncName(f), p.Pos(in.Pos()), "call of "+pkgPath+"."+name+" on a field of the "+typeName+" receiver: a later or concurrent call on the same builder sees state left by this one")
+						}
 					}
 				}
 			}
